@@ -31,6 +31,18 @@ CHECKS = {
  "C15": ("exploration", "exhaustive operand-class table (class alphabet squared x every operation/mode) against float64 shadows; predicates over all 2^17 top-bit patterns",
          "Every pair of operand classes for every binary operation and mode, every class for every unary operation; class and sign from Go's float64 operation, bit-exact NaN propagation, payload text of invalid operations, predicate consistency on every top-bit pattern.",
          "Finite representatives are moderate so float64 and decimal agree on result classes; Min/Max decided by C04."),
+ "C16": ("exploration", "bounded-exhaustive argument alphabet x 8 functions against a two-precision math/big.Float oracle (enclosure verdicts)",
+         "Arguments over the whole exponent range, neighbours of 1, every two-digit leading pair, all exact cases, overflow/underflow thresholds to a few ulps, the int16 exponent-wrap region; accepted only if within one ulp over the whole enclosure, rejected only if beyond it over the whole enclosure; exact cases must be exact.",
+         "Numerical oracle (320/512-bit evaluation, 2^-280 guard) bound to the repository's simple.txt vectors; default rounding mode only. Known findings: Expm1 for small negative arguments and Expm1(-0), Log1p for |x| < 1e-3276 (the repository's own edge vectors pin those results, so they cannot be repaired with the suite unedited)."),
+ "C17": ("exploration", "bounded-exhaustive enumeration decided exactly in big integers ((r -/+ (1/2+1e-20)u)^k against |d|)",
+         "Shapes x every exponent (subset) and exponent windows (all), perfect squares/cubes and their neighbours, all leading-digit prefixes, both functions and signs; the property's own integer criterion is evaluated exactly; perfect powers must give exact roots.",
+         "No numerical approximation is involved."),
+ "C18": ("exploration", "bounded-exhaustive ladder x base/exponent product against exact shortcut rules and a two-precision big.Float oracle with the property's tolerance formula",
+         "Every shortcut case (y in 0, +-1, +-0.5 cohorts, integers, powers of ten for every k, negative bases) must be exact; general pairs incl. bases near 1, every leading pair, exponents landing at the thresholds to a few ulps, all six modes; Pow == PowWithMode under every default mode.",
+         "Beyond the range both Inf/zero and the mode-rounded extreme are accepted; oracle bound to the repository's Pow vectors (simple.txt)."),
+ "C20": ("model_checking", "stateless exploration of all thread interleavings (preemption-bounded DFS under a hand-written cooperative scheduler on an AST-instrumented overlay build of the current sources) + exhaustive totality/purity enumeration + supplementary free-running -race pass",
+         "Totality and purity over every exported entry point with extreme arguments, fault-injecting fmt.State/ScanState stubs and a generated snapshot of all package-level variables; all interleavings of 2-3 threads x 2 operations for every pair of a 19-entry operation menu on shared operands up to the preemption bound, results compared with sequential execution; recorded schedules are replayed for determinism.",
+         "Scheduling points are statement-level accesses to package variables (plus function entries/loops after a reference escapes); finer memory-model effects are only sampled by the -race pass; capped scenarios are reported with exhaustive:false."),
  "C19": ("model_checking", "cohort-closure search: every encoding of each base value x every observer; executions that must be indistinguishable are compared with each other; Canonical against the direct definition over shapes x all exponents",
          "All cohort members (generated by x10//10 transitions) of each base value through ~150 unary observers and all binary operations (member x member product on a reduced base, one side at a time otherwise); Canonical bit-exact against the normal-form definition over every exponent and all special prefixes.",
          "Differential oracle: no numeric reference involved; sign of Canonical(NaN) not pinned."),
@@ -69,7 +81,7 @@ def main():
       "hooks": {"guard": "verif", "enable": "no source hook is committed to /repo: checks use only the exported API (and, for C20, a go build -overlay generated from the current tree under /verif/.work)",
                 "baseline_off_cmd": "cd /repo && GOFLAGS=-mod=mod GOPROXY=off GOSUMDB=off GOTOOLCHAIN=local go test -vet=off -count=1 ./...",
                 "source_commits": [], "add_only": True},
-      "engines": [{"name": "verifmc", "path": "/verif/mc", "serves_properties": sorted(CHECKS), "kind_free_text": "hand-written Go bounded-exhaustive explorer: product enumeration / explicit-state BFS over operation sequences / controlled scheduler, against a math/big reference model"}],
+      "engines": [{"name": "verifmc", "path": "/verif/mc", "serves_properties": sorted(CHECKS), "kind_free_text": "hand-written Go bounded-exhaustive explorer: product enumeration, cohort-closure search, reference-automaton conformance, and a controlled scheduler over an instrumented overlay build, against a math/big reference model"}],
       "checks": checks, "not_applicable": na,
       "notes": "Known findings and fixed defects: /verif/known_findings.json. fix: commits in /repo are listed there with their hashes."}
     json.dump(m, open("MANIFEST.json", "w"), indent=1)
